@@ -56,24 +56,33 @@ def _check_encode(t: Tally, v: dict, data: bytes, reframed=True):
     if reframed and not problems:
         import io
         # the constructed packet goes back through the framer as a plain bytes copy, as the object itself, and as a fresh in-memory file
-        rot = t.evals % 7
-        if rot == 6:
+        rot = t.evals % 8
+        if rot == 7:
+            # the framer object is created on an EMPTY in-memory file, the constructed packet is written afterwards, then the framer is advanced
+            mem = io.BytesIO()
+            g = pk.ccsds_generator(mem)
+            mem.write(bytes(p))
+            if (t.evals // 8) % 2:
+                mem.seek(0)
+                mem.read(6)      # ... and the caller has peeked at the header in between
+            items, end = pull(g, horizon=3)
+        elif rot == 6:
             # from a socket, with the progress display on (the total length is unknown there)
             import contextlib
             from mc.seams import ScriptedSocket
-            sock = ScriptedSocket(bytes(p), lambda n, remaining, key, s_: min(n, remaining, 5 + (t.evals // 7) % 4), inspect=False)
+            sock = ScriptedSocket(bytes(p), lambda n, remaining, key, s_: min(n, remaining, 5 + (t.evals // 8) % 4), inspect=False)
             with contextlib.redirect_stdout(io.StringIO()):
-                items, end = pull(pk.ccsds_generator(sock, show_progress=bool((t.evals // 7) % 2)), horizon=3)
+                items, end = pull(pk.ccsds_generator(sock, show_progress=bool((t.evals // 8) % 2)), horizon=3)
         elif rot < 4:
             src = (bytes(p), p, io.BytesIO(bytes(p)), io.BytesIO(p))[rot]
             items, end = pull(pk.ccsds_generator(src), horizon=3)
         else:
             # as a raw record: 4 foreign bytes in front, read in pieces whose boundary falls near the end of the packet
             rec = bytes([0xF4, 0xF5, 0xF6, 0xF7]) + bytes(p)
-            r = max(1, len(rec) - 1 - (t.evals // 7) % 5) if rot == 4 else (7, 8, 11, 4096)[(t.evals // 7) % 4]
+            r = max(1, len(rec) - 1 - (t.evals // 8) % 5) if rot == 4 else (7, 8, 11, 4096)[(t.evals // 8) % 4]
             items, end = pull(pk.ccsds_generator(io.BytesIO(rec), skip_header_bytes=4, buffer_read_size_bytes=r), horizon=3)
         if end != "stop" or len(items) != 1 or bytes(items[0]) != want:
-            problems.append("reframe" if rot == 0 else f"reframe-via-{('bytes', 'packet-object', 'BytesIO', 'BytesIO-of-object', 'raw-record-read-in-pieces', 'raw-record-read-in-pieces', 'socket')[rot]}")
+            problems.append("reframe" if rot == 0 else f"reframe-via-{('bytes', 'packet-object', 'BytesIO', 'BytesIO-of-object', 'raw-record-read-in-pieces', 'raw-record-read-in-pieces', 'socket', 'framer-created-before-the-write')[rot]}")
         if t.evals % 32 == 5 and not problems:
             # a file-like source that was written to / peeked at before framing: an in-memory file and a real file must be treated alike
             import os
@@ -336,7 +345,7 @@ def replay(case):
                     return viol
             return None
         if _in_range(v, n):
-            for pre in list(range(7)) + [7 * j + 3 for j in range(1, 6)] + [7 * j + 4 for j in range(1, 6)] + [7 * j + 5 for j in range(1, 4)] + [4, 36, 68]:  # every source rotation of the re-framing step, and the positioned-file differential (evals % 32 == 5)
+            for pre in list(range(8)) + [8 * j + 3 for j in range(1, 6)] + [8 * j + 4 for j in range(1, 6)] + [8 * j + 5 for j in range(1, 4)] + [8 * j + 6 for j in range(1, 3)] + [4, 36, 68]:  # every source rotation of the re-framing step, and the positioned-file differential (evals % 32 == 5)
                 t = Tally()
                 t.evals = pre
                 _check_encode(t, v, bytes(n))
